@@ -1,5 +1,5 @@
-/- C01 — property theorems (to be written). -/
-import SoundeventModel.Basic
+/- C01 — property theorems (in progress). -/
+import Proofs.Lemmas.AoefDecode
 namespace SE.Proofs.C01
 
 end SE.Proofs.C01
